@@ -229,6 +229,7 @@ const S2_ADD: &[&str] = &[
     "||c.com^$csp=d1",
     "foo*bar$tag=a",
     "||b1.com^$image",
+    "foo*baz$tag=a",
 ];
 const S2_URLS: &[(&str, &str)] = &[
     ("https://b1.com/x", "script"),
@@ -239,6 +240,7 @@ const S2_URLS: &[(&str, &str)] = &[
     ("https://p.com/x?q=1", "xhr"),
     ("https://pi.com/x?q=1", "xhr"),
     ("https://z.com/foo1bar", "script"),
+    ("https://z.com/foo1baz", "script"),
     ("https://z.com/adv/track1pixel", "script"),
     ("https://z.com/adv/track1beacon", "script"),
 ];
@@ -272,8 +274,8 @@ fn nf(rule: &str) -> NetworkFilter {
     }
 }
 
-fn s2_blocker(rules: &[&str]) -> Blocker {
-    let b = Blocker::new(rules.iter().map(|r| nf(r)).collect(), &BlockerOptions { enable_optimizations: false });
+fn s2_blocker(rules: &[&str], optimize: bool) -> Blocker {
+    let b = Blocker::new(rules.iter().map(|r| nf(r)).collect(), &BlockerOptions { enable_optimizations: optimize });
     b.set_regex_discard_policy(never());
     b
 }
@@ -290,12 +292,14 @@ fn s2_query(b: &Blocker, res: &ResourceStorage, o: &Op2) -> Ans {
 }
 
 struct S2 {
+    /// built with `enable_optimizations` (tag rebuilds then fuse rules) or without
+    optimize: bool,
     ops: Vec<Op2>,
     /// key = (added rules in order as bytes, tag) -> expected answers per op index
     expected: HashMap<(Vec<u8>, bool), Vec<Option<Ans>>>,
 }
 
-fn s2_prepare(depth: usize) -> S2 {
+fn s2_prepare(depth: usize, optimize: bool) -> S2 {
     let ops = s2_ops();
     let res = ResourceStorage::from_resources(resources());
     let mut expected = HashMap::new();
@@ -319,7 +323,7 @@ fn s2_prepare(depth: usize) -> S2 {
         let mut rules: Vec<&str> = S2_INITIAL.to_vec();
         rules.extend(st.iter().map(|&i| S2_ADD[i as usize]));
         for tag in [false, true] {
-            let mut b = s2_blocker(&rules);
+            let mut b = s2_blocker(&rules, optimize);
             if tag {
                 b.use_tags(&["a"]);
             }
@@ -327,11 +331,11 @@ fn s2_prepare(depth: usize) -> S2 {
             expected.insert((st.clone(), tag), v);
         }
     }
-    S2 { ops, expected }
+    S2 { optimize, ops, expected }
 }
 
 fn s2_run(s: &S2, res: &ResourceStorage, seq: &[usize], l: &mut Local) -> Option<(usize, String, String)> {
-    let mut b = s2_blocker(S2_INITIAL);
+    let mut b = s2_blocker(S2_INITIAL, s.optimize);
     let mut key: (Vec<u8>, bool) = (Vec::with_capacity(8), false);
     for (step, &oi) in seq.iter().enumerate() {
         let o = s.ops[oi];
@@ -491,7 +495,7 @@ fn s3_run(s: &S3, seq: &[usize], l: &mut Local) -> Option<(usize, String, String
 fn op_names(scn: usize, seq: &[usize]) -> Vec<String> {
     match scn {
         1 => { let o = s1_ops(); seq.iter().map(|&i| format!("{:?}", o[i])).collect() }
-        2 => {
+        2 | 4 => {
             let o = s2_ops();
             seq.iter().map(|&i| match o[i] { Op2::Add(k) => format!("Add({})", S2_ADD[k]), Op2::Check(k) => format!("Check({} as {})", S2_URLS[k].0, S2_URLS[k].1), x => format!("{:?}", x) }).collect()
         }
@@ -503,6 +507,8 @@ struct Prepared {
     s1: S1,
     s2: S2,
     s3: S3,
+    /// scenario 4 = scenario 2 on a blocker built with optimisations enabled
+    s4: S2,
 }
 
 fn run_one(p: &Prepared, res: &ResourceStorage, scn: usize, seq: &[usize], l: &mut Local) -> Option<(usize, String, String)> {
@@ -510,6 +516,7 @@ fn run_one(p: &Prepared, res: &ResourceStorage, scn: usize, seq: &[usize], l: &m
     match scn {
         1 => s1_run(&p.s1, seq, l),
         2 => s2_run(&p.s2, res, seq, l),
+        4 => s2_run(&p.s4, res, seq, l),
         _ => s3_run(&p.s3, seq, l),
     }
 }
@@ -541,7 +548,7 @@ fn shrink(p: &Prepared, res: &ResourceStorage, scn: usize, seq: &[usize]) -> Vec
 fn kinds(scn: usize, seq: &[usize]) -> Vec<String> {
     match scn {
         1 => { let o = s1_ops(); seq.iter().map(|&i| match o[i] { Op1::Check(_) => "check".into(), Op1::Use(_) => "use".into(), x => format!("{:?}", x).to_lowercase() }).collect() }
-        2 => { let o = s2_ops(); seq.iter().map(|&i| match o[i] {
+        2 | 4 => { let o = s2_ops(); seq.iter().map(|&i| match o[i] {
             Op2::Check(_) => "check".into(),
             Op2::Add(k) => format!("add[{}]", S2_ADD[k].rsplit_once('$').map(|x| x.1.split(',').map(|o| o.split('=').next().unwrap_or("")).collect::<Vec<_>>().join("+")).unwrap_or_else(|| "plain".into())),
             Op2::Use(_) => "use".into(),
@@ -584,7 +591,7 @@ fn report(p: &Prepared, res: &ResourceStorage, scn: usize, seq: &[usize], first:
 fn replay(case: &Value, l: &mut Local) {
     let scn = case["scenario"].as_u64().unwrap_or(1) as usize;
     let seq: Vec<usize> = case["ops"].as_array().map(|a| a.iter().filter_map(|v| v.as_u64().map(|x| x as usize)).collect()).unwrap_or_default();
-    let p = Prepared { s1: s1_prepare(), s2: s2_prepare(seq.len()), s3: s3_prepare() };
+    let p = Prepared { s1: s1_prepare(), s2: s2_prepare(seq.len(), false), s3: s3_prepare(), s4: s2_prepare(seq.len(), true) };
     let res = ResourceStorage::from_resources(resources());
     // run on a fresh thread so that the free lists start empty, like in a fresh process
     std::thread::scope(|sc| {
@@ -600,7 +607,7 @@ fn check(ctx: &Ctx) -> i32 {
     // depth per scenario (S1 needs 5 operations for the shortest address-reuse history)
     let depths: [usize; 3] = ctx.tier.pick([5, 4, 5], [6, 5, 6]);
     ctx.bound("history_depth_s1_s2_s3", json!(depths));
-    let p = Prepared { s1: s1_prepare(), s2: s2_prepare(depths[1]), s3: s3_prepare() };
+    let p = Prepared { s1: s1_prepare(), s2: s2_prepare(depths[1], false), s3: s3_prepare(), s4: s2_prepare(depths[1], true) };
     ctx.bound("s1_operations", p.s1.ops.len());
     ctx.bound("s2_operations", p.s2.ops.len());
     ctx.bound("s3_operations", p.s3.ops.len());
@@ -610,16 +617,16 @@ fn check(ctx: &Ctx) -> i32 {
         l.states += 4 + p.s2.expected.len() as u64 + 1;
         ctx.merge(l);
     }
-    for scn in [1usize, 2, 3] {
+    for scn in [1usize, 2, 3, 4] {
         let (nops, queries): (u64, Vec<usize>) = match scn {
             1 => (p.s1.ops.len() as u64, (0..p.s1.ops.len()).filter(|&i| is_query1(&p.s1.ops[i])).collect()),
-            2 => (p.s2.ops.len() as u64, (0..p.s2.ops.len()).filter(|&i| is_query2(&p.s2.ops[i])).collect()),
+            2 | 4 => (p.s2.ops.len() as u64, (0..p.s2.ops.len()).filter(|&i| is_query2(&p.s2.ops[i])).collect()),
             _ => (p.s3.ops.len() as u64, (0..p.s3.ops.len()).filter(|&i| is_query3(&p.s3.ops[i])).collect()),
         };
         // histories of exactly `depth` operations whose last operation is a query: every shorter
         // history is a prefix of one of them and is checked on the way (answers are compared
         // at every query, not only the last).
-        let d = depths[scn - 1];
+        let d = depths[if scn == 4 { 1 } else { scn - 1 }];
         let prefixes = nops.pow(d as u32 - 1);
         let total = prefixes * queries.len() as u64;
         ctx.par_range(&format!("scenario {} histories", scn), total, 256, |i, l| {
@@ -654,7 +661,7 @@ fn check(ctx: &Ctx) -> i32 {
     }
     ctx.finish(
         "model_checking",
-        "three scenarios (S1 engine with tagged regex rules: queries, use/enable/disable tags, discard policies, discard-all, serialize+deserialize into the same and into a fresh engine; S2 blocker: add_filter of each pool rule, optimize(), tags, queries; S3 cosmetic rules + scriptlet resources: queries, reload, resource reload); every operation history of the stated depth whose last operation is a query (shorter ones are prefixes), each on a fresh real subject under a strict-LIFO allocator; every query answer compared with a freshly built engine for the model state (precomputed); non-trivial = the history contains at least two queries; states = model states, transitions = operations executed",
+        "three scenarios (S1 engine with tagged regex rules: queries, use/enable/disable tags, discard policies, discard-all, serialize+deserialize into the same and into a fresh engine; S2 blocker: add_filter of each pool rule, optimize(), tags, queries (S4: the same on a blocker built with optimisations enabled); S3 cosmetic rules + scriptlet resources: queries, reload, resource reload); every operation history of the stated depth whose last operation is a query (shorter ones are prefixes), each on a fresh real subject under a strict-LIFO allocator; every query answer compared with a freshly built engine for the model state (precomputed); non-trivial = the history contains at least two queries; states = model states, transitions = operations executed",
         &[
             "environment answers (cleanup timer fired, regex discarded) are operations of the alphabet, enumerated not sampled",
             "hash-map iteration order inside the engine is not controlled; a violating history is re-executed twice and under a never-reuse allocator, and labelled",
